@@ -19,8 +19,8 @@ def comm(t):
 
 def delivering_value(m, cell):
     """Exit value of `cell` on the delivering exits only."""
-    exits = [ex for ex in m.up_exits if not any(
-        isinstance(c, tuple) and c[0] == 'op' and c[1] == 'not' and c[2][0][0] == 'is_some' and c[2][0][1][0] == 'childlast' for c in ex.pc)]
+    from .terms import nondelivering
+    exits = [ex for ex in m.up_exits if not nondelivering(ex.pc)]
     return exits_value(exits, lambda ex: ex.fields.get(cell, ('in', cell)))
 
 
@@ -104,12 +104,17 @@ def welford_rolling(F, R):
         if any(trivially_false(c) for c in conds):
             continue
         if leaf == NONE:
-            seen_none = any(c == op('eq', ('in', n), lit(0, 'i')) for c in conds)
+            seen_none = seen_none or any(relation(c, ('in', n), lit(0, 'i')) == {'='} for c in conds)
             continue
         if leaf[0] == 'some':
             x = leaf[1]
             if s and x == op('sqrt', op('div', ('in', s), op('from_int', ('in', n)))):
-                if any(c == op('gt', ('in', n), lit(1, 'i')) for c in conds):
+                allowed = {'<', '=', '>'}
+                for c in conds:
+                    r = relation(c, ('in', n), lit(1, 'i'))
+                    if r is not None:
+                        allowed &= r
+                if allowed <= {'>'} or any(relation(c, ('in', n), lit(2, 'i')) is not None and relation(c, ('in', n), lit(2, 'i')) <= {'>', '='} for c in conds):
                     seen_sqrt = True
                 else:
                     bad = 'sqrt(s/n) outside n > 1'
@@ -222,8 +227,8 @@ def ln_return(F, R):
         vg2 = VG(F, v)
         vg2.child_epoch = dict(vg.child_epoch)
         exits = vg2.run(v.update, '', None, fields)
-        deliv = [ex for ex in exits if not any(
-            isinstance(c, tuple) and c[0] == 'op' and c[1] == 'not' and c[2][0][0] == 'is_some' and c[2][0][1][0] == 'childlast' for c in ex.pc)]
+        from .terms import nondelivering
+        deliv = [ex for ex in exits if not nondelivering(ex.pc)]
         keys = set()
         for ex in deliv:
             keys |= set(ex.fields)
